@@ -27,10 +27,21 @@ type schedRPC struct {
 	w     *sim.World
 	chain string
 
-	mu     sync.Mutex
-	armed  bool
-	parked []*parkedCall
-	served int
+	mu       sync.Mutex
+	armed    bool
+	parked   []*parkedCall
+	served   int
+	failNext int // the next failNext calls fail (transient rpc error)
+}
+
+func (r *schedRPC) fail() bool {
+	r.mu.Lock()
+	defer r.mu.Unlock()
+	if r.failNext > 0 {
+		r.failNext--
+		return true
+	}
+	return false
 }
 
 type parkedCall struct {
@@ -82,6 +93,9 @@ func (r *schedRPC) disarm() {
 
 func (r *schedRPC) GetBlockHeight() (uint64, error) {
 	r.gate("getblockcount")
+	if r.fail() {
+		return 0, errors.New("rpc: connection refused")
+	}
 	var h uint32
 	r.w.Locked(func() { h = r.w.ChainOf(r.chain).Height })
 	return uint64(h), nil
@@ -89,6 +103,9 @@ func (r *schedRPC) GetBlockHeight() (uint64, error) {
 
 func (r *schedRPC) GetTxOut(txid string, vout uint32) (*txwatcher.TxOutResp, error) {
 	r.gate("gettxout")
+	if r.fail() {
+		return nil, errors.New("rpc: connection refused")
+	}
 	var resp *txwatcher.TxOutResp
 	r.w.Locked(func() {
 		c := r.w.ChainOf(r.chain)
